@@ -211,6 +211,26 @@ func check(c Case) (o ev.Outcome) {
 							return
 						}
 					}
+					// negative: a step that names no child, taken back by a ".." step, finds nothing either (the
+					// walk has nowhere to come back from)
+					if (uint32(si*17+ti)*2654435761+c.Pick)%5 == 0 {
+						steps := strings.Split(strings.TrimPrefix(tg.Path, "/"), "/")
+						k := int((uint32(ti)*7 + c.Pick) % uint32(len(steps)))
+						pfx := ""
+						if i := strings.IndexByte(steps[k], ':'); i >= 0 {
+							pfx = steps[k][:i+1]
+						}
+						if k > 0 {
+							mut := append(append(append([]string(nil), steps[:k]...), pfx+"nosuch-node", ".."), steps[k:]...)
+							bad := "/" + strings.Join(mut, "/")
+							negatives++
+							classes["negative-missing-step-taken-back"] = true
+							if g := st.e.Find(bad); g != nil {
+								fail("non-existent-step", "negative/missing-step-then-dotdot", "from %s%s: Find(%q) returned %s although the step before \"..\" names no child", m.Name, st.path, bad, desc(g))
+								return
+							}
+						}
+					}
 					// negative: one step replaced by a name that is no child there
 					if (uint32(si*131+ti)*2246822519+c.Pick)%3 == 0 {
 						steps := strings.Split(strings.TrimPrefix(tg.Path, "/"), "/")
